@@ -86,13 +86,19 @@ impl DbcHeader {
     /// Checks that the record area this (untrusted) header describes lies inside `data_len`
     /// bytes. Readers call this before sizing any buffer from the header's counts.
     pub fn check_fits(&self, data_len: u64) -> Result<()> {
+        self.check_fits_at(DbcHeader::SIZE as u64, data_len)
+    }
+
+    /// Like [`check_fits`](Self::check_fits) for a record area that starts at `record_offset`
+    /// (files with a longer, version-specific header).
+    pub fn check_fits_at(&self, record_offset: u64, data_len: u64) -> Result<()> {
         if self.record_count > 0 && self.record_size == 0 {
             return Err(Error::InvalidHeader(
                 "Record size cannot be 0 if record count is greater than 0".to_string(),
             ));
         }
         let records = self.record_count as u64 * self.record_size as u64;
-        if DbcHeader::SIZE as u64 + records > data_len {
+        if record_offset.saturating_add(records) > data_len {
             return Err(Error::InvalidHeader(format!(
                 "{} records of {} bytes do not fit in {} bytes of data",
                 self.record_count, self.record_size, data_len
